@@ -30,7 +30,7 @@ CMPS = ["=", "<=", ">=", "<", ">"]
 RULE = ("(a) all binary expression trees with <= 5 nodes (quick) / <= 7 nodes, depth <= 4 (thorough: 7-node trees on a 4-leaf "
         "alphabet) over + - * / and leaves {(f),(g ?x),(g ?y),2,0.5,-1}; direct evaluation on every valuation of the 6-point "
         "grid; through actions (5 comparison operators against 2 constants; assign/increase/decrease; 4 actions with several mutually "
-        "dependent updates) on a 3-point sub-grid; "
+        "dependent updates) on a 3-point sub-grid; a two-place fluent under 6 parameter namings (the declaration's names in the same / the other order, unrelated names) x 5 expressions x 3 targets x both calls x 9 valuations; "
         "(b) 5 operators x deltas {0, eps/2, ~eps (0.999/1.001 for the non-dyadic default), eps(1+2^-20), 2 eps} both signs x "
         "magnitudes {0,1,-1,1000} x EPSILON in {default 1e-4, 2^-3, 2^-10}; (c) 12 expressions x digits {default,0,2,4,6} x "
         "NUMERIC_PRECISION in {unset,2,6}. non-trivial = a tree with >= 1 operator and >= 1 fluent")
@@ -74,6 +74,7 @@ def cases(tier):
     if batch:
         yield {"kind": "eval", "trees": batch}
     yield {"kind": "mutual"}
+    yield {"kind": "argorder"}
     yield {"kind": "near"}
     yield {"kind": "chain"}
     yield {"kind": "undefined"}
@@ -483,11 +484,75 @@ def check_undefined(r, case):
             return
 
 
+ARG_HDR = ("(define (domain c12) (:requirements :typing :numeric-fluents) (:types t1 - object) (:predicates (r)) "
+           "(:functions (f) (d ?a - t1 ?b - t1) (out))\n")
+ARG_PARAMS = [("?a", "?b"), ("?b", "?a"), ("?x", "?y"), ("?a", "?x"), ("?x", "?a"), ("?b", "?x")]
+
+
+def check_argorder(r, case):
+    """a two-place fluent (d ?a ?b) used by actions whose parameters are named like the declaration's, in the same and
+    in the other order, and unrelated: the term (d P Q) reads the fluent of (value of P, value of Q) - position by
+    position, whatever the names - in conditions, right-hand sides and targets; printing keeps the written order"""
+    from pddl_plus_parser.multi_agent.common import create_initial_state
+    r.nontrivial = True
+    S = RefDomain.from_tree(sexp.read(ARG_HDR + ")"))
+    for p1, p2 in ARG_PARAMS:
+        t12, t21 = f"(d {p1} {p2})", f"(d {p2} {p1})"
+        exprs = [t12, t21, f"(- {t12} {t21})", f"(- {t21} (* 2 {t12}))", f"(+ {t21} (f))"]
+        for e in exprs:
+            for tgt in ("(out)", t12, t21):
+                body = f":precondition (and (>= {e} 1)) :effect (and (assign {tgt} {e}) (increase (f) {t21}))"
+                D = guard(parse_domain, ARG_HDR + f"(:action a :parameters ({p1} - t1 {p2} - t1) {body}))")
+                if isinstance(D, Raised):
+                    r.fail("argorder-rejected", f"parameters ({p1} {p2}): {body} raised {D}", "parsed", str(D), tags=["argorder"])
+                    return
+                printed = guard(lambda: sexp.read(D.actions["a"].preconditions.print(should_simplify=False)))
+                want_pre = sexp.read(f"(and (>= {e} 1))")
+                if isinstance(printed, Raised) or _numnorm(printed) != _numnorm(want_pre):
+                    r.fail("argorder-print", f"parameters ({p1} {p2}): precondition (and (>= {e} 1)) prints as "
+                           f"{printed if isinstance(printed, Raised) else sexp.dumps(printed)}", sexp.dumps(want_pre), str(printed),
+                           tags=["argorder", "print"])
+                    return
+                for args in (("o1", "o2"), ("o2", "o1")):
+                    beta = {p1: args[0], p2: args[1]}
+                    for vals in product(SUBGRID, repeat=2):
+                        pre = RefState([], {("f",): Fraction(1), ("out",): Fraction(0), ("d", "o1", "o2"): vals[0],
+                                            ("d", "o2", "o1"): vals[1], ("d", "o1", "o1"): Fraction(5), ("d", "o2", "o2"): Fraction(7)})
+                        want_app = compare(">=", value(S, sexp.read(e), beta, pre), Fraction(1), Fraction(1, 10000))
+                        exp = dict(pre.fluents)
+                        exp[tuple(beta.get(t, t) for t in sexp.read(tgt))] = value(S, sexp.read(e), beta, pre)
+                        exp[("f",)] = pre.fluents[("f",)] + value(S, sexp.read(t21), beta, pre)
+                        init = " ".join(f"(= ({' '.join(k)}) {fmt_num(x)})" for k, x in pre.fluents.items())
+                        ptxt = f"(define (problem p) (:domain c12) (:objects o1 o2 - t1) (:init {init}) (:goal (and)))"
+
+                        def q():
+                            P = parse_problem(ptxt, D)
+                            op = operator(D, "a", list(args), P.objects)
+                            s0 = create_initial_state(P)
+                            return [op.is_applicable(s0), observe_state(op.apply(s0, skip_validation=True)).fluents]
+                        got = guard(q)
+                        r.count("transitions")
+                        r.seen("states", digest((p1, p2, e, tgt, args, vals)))
+                        if isinstance(got, Raised) or got[0] is not want_app or got[1] != exp:
+                            r.fail("argument-order", f"parameters ({p1} {p2}), call (a {' '.join(args)}): (>= {e} 1) / (assign {tgt} {e}) "
+                                   f"(increase (f) {t21}) from d(o1,o2)={vals[0]} d(o2,o1)={vals[1]} f=1: "
+                                   f"{got if isinstance(got, Raised) else [got[0], {' '.join(k): str(v) for k, v in got[1].items()}]}, expected "
+                                   f"[{want_app}, { {' '.join(k): str(v) for k, v in exp.items()} }]", str(exp), str(got)[:300],
+                                   tags=["argorder"])
+                            return
+
+
+def _numnorm(t):
+    if isinstance(t, list):
+        return [_numnorm(x) for x in t]
+    return str(Fraction(t)) if is_number(t) else t
+
+
 def check_case(case):
     r = CaseResult()
     if case["kind"] == "undefined":
         check_undefined(r, case)
         return r
     {"eval": check_eval, "boundary": check_boundary, "print": check_print, "mutual": check_mutual,
-     "near": check_near, "chain": check_chain}[case["kind"]](r, case)
+     "near": check_near, "chain": check_chain, "argorder": check_argorder}[case["kind"]](r, case)
     return r
